@@ -15,6 +15,7 @@ def register(reg):
     register_strings(reg)
     register_tree(reg)
     register_formats(reg)
+    register_docs(reg)
     register_stubs(reg)
     register_hash(reg)
     register_env(reg)
@@ -283,6 +284,58 @@ def register_formats(reg):
     attr("fmt_opts", "$fmt_opts")
 
 
+def register_docs(reg):
+    """document values (C04): see pyvc/builtins_spec.py 'document codecs'"""
+    from pyvc.builtins_spec import doc_funs, codec_funs
+
+    @reg.specfun("doc")
+    def doc(ex, st, args, cx):
+        D = doc_funs(ex.w)
+        d = D["of"](args[0].e)
+        st.assume(z3.Implies(ex.o.is_type(args[0].e, "ref:dict"), D["is_map"](d)))
+        return ex.o.int_(d)
+
+    @reg.specfun("doc_is_map")
+    def doc_is_map(ex, st, args, cx):
+        return ex.o.bool_(doc_funs(ex.w)["is_map"](ex.o.i(args[0])))
+
+    @reg.specfun("doc_has")
+    def doc_has(ex, st, args, cx):
+        return ex.o.bool_(doc_funs(ex.w)["has"](ex.o.i(args[0]), ex.o.s(args[1])))
+
+    @reg.specfun("doc_get")
+    def doc_get(ex, st, args, cx):
+        return ex.o.int_(doc_funs(ex.w)["get"](ex.o.i(args[0]), ex.o.s(args[1])))
+
+    def parser(lib, text):
+        @reg.specfun(lib + "_parse")
+        def f(ex, st, args, cx, lib=lib, text=text):
+            return ex.o.int_(codec_funs(ex.w, lib)[1](ex.o.s(args[0]) if text else ex.o.y(args[0])))
+    for lib, text in (("json", True), ("yaml", True), ("bson", False), ("pickle", False)):
+        parser(lib, text)
+
+    def strpred(name, fn, out):
+        @reg.specfun(name)
+        def f(ex, st, args, cx, fn=fn, out=out):
+            r = ex.w.fun(fn, "str", out)(ex.o.s(args[0]))
+            return {"bool": ex.o.bool_, "int": ex.o.int_, "str": ex.o.str_}.get(out, ex.o.float_)(r)
+    from pyvc.smt import FP64
+    for name, out in (("int_ok", "bool"), ("int_parse", "int"), ("float_ok", "bool"), ("float_parse", FP64), ("xml_ok", "bool"), ("xml_root_tag", "str")):
+        strpred(name, name, out)
+
+    @reg.specfun("isnan")
+    def isnan(ex, st, args, cx):
+        return ex.o.bool_(z3.And(ex.w.V.is_flt(args[0].e), z3.fpIsNaN(ex.w.V.f(args[0].e))))
+
+    @reg.specfun("xml_bytes")
+    def xml_bytes(ex, st, args, cx):
+        return ex.o.bytes_(ex.w.fun("xml_bytes", "V", ByteSeq)(args[0].e))
+
+    @reg.specfun("is_utf8")
+    def is_utf8(ex, st, args, cx):
+        return ex.o.bool_(ex.w.fun("is_utf8", ByteSeq, "bool")(ex.o.y(args[0])))
+
+
 def register_stubs(reg):
     @reg.specfun("class_name_of")
     def class_name_of(ex, st, args, cx):
@@ -361,6 +414,8 @@ def register_paths(reg):
 def register_codecs(reg):
     @reg.specfun("lower")
     def lower(ex, st, args, cx):
+        from pyvc.builtins_spec import lower_literals
+        lower_literals(ex.w, st)
         return ex.o.str_(ex.w.fun("str_lower", "str", "str")(ex.o.s(args[0])))
 
     @reg.specfun("b64")
